@@ -335,7 +335,7 @@ def members(spec, name):
     The field a class has is the declaration of the first class of its MRO that annotates it (Python data model; for
     dataclasses: "fields are collected in reverse MRO order").  The annotation is substituted through the base edges that lead
     from `name` to that declaring class.  If several chains of edges lead there and bind its variables differently, the set has
-    several elements: nothing says which binding counts, and the oracle compares nothing for that field."""
+    several elements: nothing says which binding counts, and the oracle compares nothing for that field (only creation)."""
     out = {}
     for k in mro(spec, name):
         for f, _ in get_class(spec, k)["fields"]:
@@ -350,8 +350,29 @@ def members(spec, name):
                     bparams = class_params(spec, edge["cls"])
                     t = subst(t, bind(bparams, implicit_args(bparams) if edge["args"] is None else edge["args"]))
                 types.add(t)
+            # dataclasses collect Field objects "first class of the MRO that *has* the field" (inherited ones included), which in
+            # a diamond whose second arm re-annotates the field is not the declaration get_type_hints() sees: Python itself is
+            # of two minds there, so that view is added and the field becomes ambiguous when the two differ
+            types.add(_first_base_view(spec, name, f))
             out[f] = types
     return out
+
+
+def _all_field_names(spec, name):
+    return {f for k in mro(spec, name) for f, _ in get_class(spec, k)["fields"]}
+
+
+def _first_base_view(spec, name, field):
+    c = get_class(spec, name)
+    for f, ann in c["fields"]:
+        if f == field:
+            return freeze(ann)
+    for b in c["bases"]:
+        if field in _all_field_names(spec, b["cls"]):
+            bparams = class_params(spec, b["cls"])
+            env = bind(bparams, implicit_args(bparams) if b["args"] is None else b["args"])
+            return subst(_first_base_view(spec, b["cls"], field), env)
+    raise KeyError(field)
 
 
 def resolve(spec, leaf, args):
